@@ -173,6 +173,26 @@ files["runtime/proc.go"] = patch("runtime/proc.go", [
 ])
 
 files["runtime/rand.go"] = patch("runtime/rand.go", [
+    # the compiler seeds stack-allocated maps with a direct call of runtime.rand:
+    # rand becomes a hookable wrapper, the generator itself moves to rand0
+    ("""//go:nosplit
+//go:linkname rand
+func rand() uint64 {
+""", """//go:linkname rand
+func rand() uint64 {
+	if h := verifMapHook; h != nil {
+		if gp := getg(); gp.bubble != nil && gp.m != nil && gp.m.curg == gp && gp.m.locks == 0 {
+			if v, ok := h(); ok {
+				return v
+			}
+		}
+	}
+	return rand0()
+}
+
+//go:nosplit
+func rand0() uint64 {
+"""),
     ("""func maps_rand() uint64 {
 	return rand()
 }
@@ -182,9 +202,32 @@ files["runtime/rand.go"] = patch("runtime/rand.go", [
 			return v
 		}
 	}
-	return rand()
+	return rand0()
 }
 """),
+    ("""	mp.cheaprand = rand()
+""", """	mp.cheaprand = rand0()
+"""),
+    ("""	return uint32((uint64(uint32(rand())) * uint64(n)) >> 32)
+""", """	return uint32((uint64(uint32(rand0())) * uint64(n)) >> 32)
+"""),
+    ("""func legacy_fastrand() uint32 {
+	return uint32(rand())
+}""", """func legacy_fastrand() uint32 {
+	return uint32(rand0())
+}"""),
+    ("""func legacy_fastrand64() uint64 {
+	return rand()
+}""", """func legacy_fastrand64() uint64 {
+	return rand0()
+}"""),
+])
+
+# per-process random hash keys make the layout (hence the iteration order) of
+# maps with more than one group differ from process to process: fix them
+files["runtime/alg.go"] = patch("runtime/alg.go", [
+    ("		hashkey[i] = uintptr(bootstrapRand())", "		hashkey[i] = uintptr(uint64(i+1) * 0x9e3779b97f4a7c15)"),
+    ("		key[i] = bootstrapRand()", "		key[i] = uint64(i+1) * 0xbf58476d1ce4e5b9"),
 ])
 
 # ---------------------------------------------------------------- sync
